@@ -211,30 +211,34 @@ macro_rules! fnp_case {
     }};
 }
 /// @harness id=k_fn_name_pos props=C15 tier=quick unwind=24 mem=6 cap=900
-/// find_function_name_position on def-line templates chosen by a symbolic selector: plain, async, indented
-/// (spaces / tab), two spaces after def, a parameter equal to the name, the name occurring inside `def`/`async`
-/// letters, and `def<TAB>name` (tab instead of space).
+/// find_function_name_position on def-line templates, executed one after the other (concretely): plain, async,
+/// indented (spaces / tab), two spaces after def, a parameter equal to the name, the name occurring inside the
+/// letters of `def` / `async`: the span must be the name token.
 #[cfg_attr(kani, kani::proof)]
+#[cfg_attr(kani, kani::stub(core::slice::memchr::memchr, stubs::memchr_bytewise))]
 pub fn k_fn_name_pos() {
-    let k: u8 = any();
-    assume(k < 9);
-    let ok = match k {
-        0 => fnp_case!("def f(f): pass", "f", 4),
-        1 => fnp_case!("async def f(f): pass", "f", 10),
-        2 => fnp_case!("    def f(self, f): pass", "f", 8),
-        3 => fnp_case!("\tdef f(f): pass", "f", 5),
-        4 => fnp_case!("def  f(f): pass", "f", 5),
-        5 => fnp_case!("def e(d): pass", "e", 4),
-        6 => fnp_case!("async def a(a): pass", "a", 10),
-        7 => fnp_case!("def d(): pass", "d", 4),
-        _ => fnp_case!("def\tf(f): pass", "f", 4),
-    };
-    if k == 8 && crate::kf::C15_DEF_TAB_NAME_POSITION {
+    check!("k_fn_name_pos.plain", fnp_case!("def f(f): pass", "f", 4));
+    check!("k_fn_name_pos.async", fnp_case!("async def f(f): pass", "f", 10));
+    check!("k_fn_name_pos.indented", fnp_case!("    def f(self, f): pass", "f", 8));
+    check!("k_fn_name_pos.tab_indented", fnp_case!("\tdef f(f): pass", "f", 5));
+    check!("k_fn_name_pos.two_spaces", fnp_case!("def  f(f): pass", "f", 5));
+    check!("k_fn_name_pos.name_e", fnp_case!("def e(d): pass", "e", 4));
+    check!("k_fn_name_pos.async_a", fnp_case!("async def a(a): pass", "a", 10));
+    check!("k_fn_name_pos.name_d", fnp_case!("def d(): pass", "d", 4));
+    reach!("k_fn_name_pos.end");
+}
+/// @harness id=k_fn_name_pos_tab props=C15 tier=quick unwind=24 mem=6 cap=900
+/// `def<TAB>f(f): pass` (a tab instead of the space after `def`): the span must still be the name token.
+#[cfg_attr(kani, kani::proof)]
+#[cfg_attr(kani, kani::stub(core::slice::memchr::memchr, stubs::memchr_bytewise))]
+pub fn k_fn_name_pos_tab() {
+    let ok = fnp_case!("def\tf(f): pass", "f", 4);
+    if crate::kf::C15_DEF_TAB_NAME_POSITION {
         check!("KF:k_fn_name_pos.tab_after_def", ok);
     } else {
-        check!("k_fn_name_pos.span_is_name_token", ok);
+        check!("k_fn_name_pos.tab_after_def", ok);
     }
-    reach!("k_fn_name_pos.end");
+    reach!("k_fn_name_pos_tab.end");
 }
 
 // ---------------------------------------------------------------------------------------------
